@@ -40,6 +40,41 @@ def serve (payload : List Nat) (ntsOk : Bool) : Decision :=
       else if validateRequest req.lvm = false then .dropValidate
       else .reply
 
+/-- `serve` for a receive buffer currently `bufLen` bytes long: `ReadMsgUDPAddrPort(buf, oob)`
+    delivers at most `len(buf)` bytes and sets `MSG_TRUNC` when the datagram was longer. -/
+def serveWith (bufLen : Nat) (payload : List Nat) (ntsOk : Bool) : Decision :=
+  if payload.length > bufLen then .dropTruncated
+  else match decodePacket payload with
+    | .err _ => .dropDecode
+    | .panic c => .crash c
+    | .ok req =>
+      if payload.length > packetLen ∧ ntsOk = false then .dropNts
+      else if validateRequest req.lvm = false then .dropValidate
+      else .reply
+
+/-- One iteration of the receive loop *with the state that survives it*: the length of `buf`.
+    `restoreAtTop = true` is the code as it is: `buf = buf[:cap(buf)]` is the first statement of
+    the loop body, so whatever an earlier iteration left (`buf = buf[:n]` on every path past
+    the flags check, a 48-byte reply after `EncodePacket`) is undone before the next read.
+    `restoreAtTop = false` describes a loop that restores the buffer only at the end of the
+    served path (every `continue` skips it); kept to show that the restore is what makes the
+    listener's answers independent of earlier datagrams. Returns the buffer length left behind. -/
+def loopIter (restoreAtTop : Bool) (bufLen : Nat) (d : List Nat × Bool) : Nat × Decision :=
+  let bl := if restoreAtTop then ipServerBufLen else bufLen
+  let dec := serveWith bl d.1 d.2
+  let bl' := match dec with
+    | .dropTruncated => bl                 -- `continue` before `buf = buf[:n]`
+    | .reply => if restoreAtTop then packetLen else ipServerBufLen
+    | _ => d.1.length                      -- `buf = buf[:n]`, then `continue`
+  (bl', dec)
+
+/-- the decisions of the loop on a sequence of datagrams arriving at one listener socket -/
+def runLoop (restoreAtTop : Bool) : Nat → List (List Nat × Bool) → List Decision
+  | _, [] => []
+  | bl, d :: ds =>
+    let r := loopIter restoreAtTop bl d
+    r.2 :: runLoop restoreAtTop r.1 ds
+
 /-- the listener sends a reply for this datagram -/
 def shouldReply (payload : List Nat) (ntsOk : Bool) : Bool :=
   serve payload ntsOk = .reply
